@@ -108,7 +108,7 @@ func awkwardAny() []namedValue {
 		nv("Stack{}", stackage.Stack{}), nv("Condition{}", stackage.Condition{}), nv("StackAlias{}", StackAlias{}), nv("CondAlias{}", CondAlias{}), nv("&Stack{}", &stackage.Stack{}),
 		nv("freed Stack", freedS), nv("freed Condition", freedC),
 		nv("func(){}", func() {}), nv("(func())(nil)", (func())(nil)), nv("chan int", make(chan int)), nv("(chan int)(nil)", (chan int)(nil)),
-		nv("map(nil)", map[string]int(nil)), nv("map{a:1}", map[string]int{"a": 1}), nv("NaN", math.NaN()), nv("+Inf", math.Inf(1)), nv("-Inf", math.Inf(-1)),
+		nv("map(nil)", map[string]int(nil)), nv("map{a:1}", map[string]int{"a": 1}), nv("map{NaN:1}", map[float64]int{math.NaN(): 1}), nv("map{1:NaN}", map[int]float64{1: math.NaN()}), nv("[]float{NaN}", []float64{math.NaN()}), nv("NaN", math.NaN()), nv("+Inf", math.Inf(1)), nv("-Inf", math.Inf(-1)),
 		nv("struct with unexported fields", privateStruct{1, pn}), nv("&struct with unexported fields", &privateStruct{2, nil}), nv("struct{}", struct{}{}),
 		nv("[]any{}", []any{}), nv("[]any{nil}", []any{nil}), nv("[]int(nil)", []int(nil)), nv("[0]int{}", [0]int{}), nv("reflect.Value{}", reflect.Value{}),
 		nv("error", errCat), nv("(*ptrOp)(nil)", (*ptrOp)(nil)), nv("uintptr(0)", uintptr(0)), nv("unsafe.Pointer(nil)", unsafe.Pointer(nil)), nv("complex", complex(1, 2)),
@@ -161,7 +161,13 @@ func argTuples(mt reflect.Type, pick func(t reflect.Type, pos int) []namedValue,
 			for _, v := range vals {
 				groups = append(groups, []namedValue{v})
 			}
-			if len(vals) >= 2 {
+			if len(vals) >= 2 && len(vals) <= 6 {
+				for _, a := range vals { // every ordered pair (index paths, option pairs ...)
+					for _, b := range vals {
+						groups = append(groups, []namedValue{a, b})
+					}
+				}
+			} else if len(vals) >= 2 {
 				groups = append(groups, []namedValue{vals[0], vals[1]})
 			}
 			lists[i] = groups
@@ -275,4 +281,28 @@ func describeValue(r reflect.Value) string {
 		return "ptr"
 	}
 	return fmt.Sprintf("%v", r.Interface())
+}
+
+// extraTuples adds hand-picked argument tuples for methods whose interesting inputs are structured
+// (label-led Marshal input, multi-index paths); they complement the generic per-type catalogue.
+func extraTuples(method string) []argTuple {
+	mk := func(desc string, vals ...any) argTuple {
+		t := argTuple{Desc: desc}
+		for _, v := range vals {
+			if v == nil {
+				t.Args = append(t.Args, reflect.Zero(anyType))
+			} else {
+				t.Args = append(t.Args, reflect.ValueOf(v))
+			}
+		}
+		return t
+	}
+	switch method {
+	case "Marshal":
+		return []argTuple{mk(`"AND","m"`, "AND", "m"), mk(`"or","m"`, "or", "m"), mk(`"NOT","m"`, "NOT", "m"), mk(`"LIST","m","n"`, "LIST", "m", "n"), mk(`"BASIC",1`, "BASIC", 1),
+			mk(`"CONDITION","k",Eq,"v"`, "CONDITION", "k", stackage.Eq, "v"), mk(`["AND","x"]`, []any{"AND", "x"}), mk(`["OR",["AND","y"]]`, []any{"OR", []any{"AND", "y"}}), mk(`"junk","m"`, "junk", "m")}
+	case "Traverse":
+		return []argTuple{mk("1, 1", 1, 1), mk("0, 0", 0, 0), mk("1, 0, 0", 1, 0, 0), mk("2, -1", 2, -1), mk("3, 1", 3, 1), mk("4, 0", 4, 0), mk("5, 1", 5, 1), mk("6, 0", 6, 0)}
+	}
+	return nil
 }
